@@ -823,13 +823,20 @@ func main() {
 		wideP = append(wideP, p.Name)
 	}
 	c := r.P.Counters
-	if c["traces"] > 0 && c["probe_served_by_reused_ctx"] == 0 {
+	// a tree on which NO probe of any family was served by a reused context does not pool its contexts at all (an allowed
+	// implementation: isolation then holds trivially for that mechanism): noted, not a harness error. Some but few reused
+	// contexts is a harness problem and stays fatal.
+	noPooling := c["probe_served_by_reused_ctx"] == 0 && c["dv_probe_served_by_reused_ctx"] == 0 && c["shape_probe_served_by_reused_ctx"] == 0
+	if noPooling && c["traces"] > 0 {
+		r.Note("no probe was served by a reused pooled context: contexts are not pooled on this tree")
+	}
+	if !noPooling && c["traces"] > 0 && c["probe_served_by_reused_ctx"] == 0 {
 		core.Fatal("vacuous: no probe was ever served by a reused pooled context")
 	}
-	if c["dv_traces"] > 0 && c["dv_probe_served_by_reused_ctx"]*2 < c["dv_traces"] {
+	if !noPooling && c["dv_traces"] > 0 && c["dv_probe_served_by_reused_ctx"]*2 < c["dv_traces"] {
 		core.Fatal("vacuous: derived-value family: only %d of %d probes were served by a reused pooled context", c["dv_probe_served_by_reused_ctx"], c["dv_traces"])
 	}
-	if c["shape_traces"] > 0 && c["shape_probe_served_by_reused_ctx"]*2 < c["shape_traces"] {
+	if !noPooling && c["shape_traces"] > 0 && c["shape_probe_served_by_reused_ctx"]*2 < c["shape_traces"] {
 		core.Fatal("vacuous: route-shape family: only %d of %d probes were served by a reused pooled context", c["shape_probe_served_by_reused_ctx"], c["shape_traces"])
 	}
 	dvVisible, dvBlind := dvVisibility()
